@@ -4,6 +4,8 @@
 #pragma once
 #include <string>
 #include <sstream>
+#include <set>
+#include <map>
 #include <cmath>
 #include <cstdint>
 #include <cstring>
@@ -192,6 +194,35 @@ inline std::string o_conv(const std::string& args) {
     return std::string("mmCIF does not parse: ") + e.what();
   }
   auto ann = announced(text);
+  // the source column of each announced tag, decided here from the spec alone: of the alternatives 'A|B|C' of the
+  // spec line, the first one IN SPEC ORDER that is a label of the file ('{prev}' is the label of the line before)
+  for (size_t i = 0; i < ann.size(); ++i)
+    for (const std::string& l : c.spec) {
+      std::vector<std::string> w = hv::words(l);
+      if (!w.empty() && (w[0] == "?" || w[0] == "&")) w.erase(w.begin());
+      if (w.size() < 3 || w[2] != ann[i].second) continue;
+      std::string alts = w[0];
+      size_t pp = alts.find("{prev}");
+      if (pp != std::string::npos) {
+        if (i == 0) break;
+        alts.replace(pp, 6, ann[i-1].first);
+      }
+      if (alts.find('{') != std::string::npos) break;
+      std::string want;
+      size_t from = 0;
+      while (want.empty() && from <= alts.size()) {
+        size_t bar = alts.find('|', from);
+        std::string alt = alts.substr(from, bar == std::string::npos ? std::string::npos : bar - from);
+        for (const gemmi::Mtz::Column& col : m.columns)
+          if (col.label == alt) { want = alt; break; }
+        if (bar == std::string::npos) break;
+        from = bar + 1;
+      }
+      if (want != ann[i].first)
+        return "tag " + ann[i].second + " is written from column " + ann[i].first + ", the spec '" + w[0] +
+               "' selects " + (want.empty() ? std::string("none") : want);
+      break;
+    }
   std::vector<gemmi::ReflnBlock> rbs = gemmi::as_refln_blocks(std::move(doc.blocks));
   if (rbs.empty() || !rbs[0].refln_loop) return "no refln loop";
   gemmi::ReflnBlock& rb = rbs[0];
@@ -398,8 +429,142 @@ inline std::string rows_cmd(const std::string& args) {
 
 }  // namespace conv
 
+namespace conv {
+// o_unm nsweeps nframes nrefl seed two_datasets : unmerged MTZ -> SF-mmCIF (_diffrn_refln) -> unmerged MTZ
+inline std::string o_unm(const std::string& args) {
+  std::vector<std::string> w = hv::words(args);
+  int nsweeps = (int) hv::to_ll(w.at(0)), nframes = (int) hv::to_ll(w.at(1)), nrefl = (int) hv::to_ll(w.at(2));
+  CRng r((uint64_t) hv::to_ll(w.at(3)));
+  bool two_ds = hv::to_ll(w.at(4)) != 0;
+  gemmi::Mtz m;
+  m.title = "unm";
+  m.set_spacegroup(gemmi::find_spacegroup_by_name("P 21 21 21"));
+  m.cell.set(50.25, 60.5, 70.125, 90, 90, 90);
+  m.cell.set_cell_images_from_spacegroup(m.spacegroup);
+  m.add_base();
+  m.datasets[0].cell = m.cell;
+  m.add_dataset("xtal1").wavelength = 0.9795;
+  if (two_ds) m.add_dataset("xtal2").wavelength = 1.5418;
+  m.add_column("M/ISYM", 'Y', 0, -1, false);
+  m.add_column("BATCH", 'B', 0, -1, false);
+  m.add_column("I", 'J', 1, -1, false);
+  m.add_column("SIGI", 'Q', 1, -1, false);
+  std::vector<int> numbers;
+  for (int s = 0; s < nsweeps; ++s)
+    for (int f = 1; f <= nframes; ++f) {
+      m.batches.emplace_back();
+      gemmi::Mtz::Batch& b = m.batches.back();
+      b.number = 100 * (s + 1) + f + (s == 2 ? 1300 : 0);    // a gap starts a new sweep; the third sweep far away
+      b.title = "b";
+      b.set_dataset_id(two_ds && s % 2 ? 2 : 1);
+      b.set_cell(m.cell);
+      b.set_wavelength(two_ds && s % 2 ? 1.5418f : 0.9795f);
+      numbers.push_back(b.number);
+    }
+  size_t nc = m.columns.size();
+  m.nreflections = nrefl;
+  m.data.resize(nc * nrefl);
+  for (int n = 0; n < nrefl; ++n) {
+    float* row = &m.data[n * nc];
+    // indices inside the P 21 21 21 ASU (h,k,l >= 0), ISYM 1, full reflections
+    row[0] = float(r.next() % 9); row[1] = float(r.next() % 9); row[2] = float(1 + r.next() % 9);
+    row[3] = 1.f;
+    row[4] = (float) numbers[r.next() % numbers.size()];
+    row[5] = float(int(r.next() % 200001) - 1000) / 4.f;
+    row[6] = float(1 + r.next() % 4000) / 8.f;
+  }
+  gemmi::MtzToCif m2c;
+  m2c.with_history = false;
+  std::ostringstream os;
+  try { m2c.write_cif(m, nullptr, nullptr, os); } catch (std::exception& e) { return std::string("write_cif throws: ") + e.what(); }
+  std::string text = os.str();
+  gemmi::cif::Document doc;
+  try { doc = gemmi::cif::read_string(text); } catch (std::exception& e) { return std::string("mmCIF does not parse: ") + e.what(); }
+  std::vector<gemmi::ReflnBlock> rbs = gemmi::as_refln_blocks(std::move(doc.blocks));
+  if (rbs.empty() || !rbs[0].diffrn_refln_loop) return "no diffrn_refln loop";
+  if (rbs[0].diffrn_refln_loop->length() != (size_t) nrefl) return "diffrn_refln loop does not have one row per reflection";
+  gemmi::CifToMtz c2m;
+  gemmi::Logger logger; logger.threshold = 0;
+  gemmi::Mtz m2;
+  try { m2 = c2m.convert_block_to_mtz(rbs[0], logger); } catch (std::exception& e) { return std::string("convert_block_to_mtz throws: ") + e.what(); }
+  if (m2.nreflections != nrefl) return "number of reflections changed";
+  if (m2.batches.empty()) return "converted file is not unmerged";
+  if (m2.spacegroup != m.spacegroup) return "converted space group";
+  const gemmi::Mtz::Column* ci = m2.column_with_label("I");
+  const gemmi::Mtz::Column* cs = m2.column_with_label("SIGI");
+  const gemmi::Mtz::Column* cb = m2.column_with_label("BATCH");
+  const gemmi::Mtz::Column* cy = m2.column_with_label("M/ISYM");
+  if (!ci || !cs || !cb || !cy) return "converted file lacks I/SIGI/BATCH/M/ISYM";
+  size_t nc2 = m2.columns.size();
+  std::map<int, int> fwd, back;
+  std::set<int> header_numbers;
+  for (const gemmi::Mtz::Batch& b : m2.batches)
+    if (!header_numbers.insert(b.number).second) return "duplicate batch number " + std::to_string(b.number) + " in the converted file";
+  for (int n = 0; n < nrefl; ++n) {
+    const float* a = &m.data[n * nc];
+    const float* b = &m2.data[n * nc2];
+    if (a[0] != b[0] || a[1] != b[1] || a[2] != b[2]) return "Miller index of row " + std::to_string(n) + " changed";
+    if ((int) b[cy->idx] % 256 != 1) return "M/ISYM of row " + std::to_string(n) + " changed";
+    if (std::fabs(a[5] - b[ci->idx]) > 2e-4f * (1 + std::fabs(a[5]))) return "I of row " + std::to_string(n) + " changed";
+    if (std::fabs(a[6] - b[cs->idx]) > 2e-4f * (1 + std::fabs(a[6]))) return "SIGI of row " + std::to_string(n) + " changed";
+    int ob = (int) a[4], nb = (int) b[cb->idx];
+    if (!header_numbers.count(nb)) return "BATCH " + std::to_string(nb) + " has no batch header";
+    auto f = fwd.emplace(ob, nb);
+    if (f.first->second != nb) return "one batch maps to two batch numbers";
+    auto g = back.emplace(nb, ob);
+    if (g.first->second != ob) return "two batches (" + std::to_string(g.first->second) + ", " + std::to_string(ob) +
+                                      ") map to the same batch number " + std::to_string(nb);
+  }
+  // frames of one sweep keep their spacing
+  for (const auto& p : fwd)
+    for (const auto& q : fwd)
+      if (p.first / 100 == q.first / 100 && p.first - q.first != p.second - q.second)
+        return "frames of one sweep changed their spacing";
+  return "ok";
+}
+}  // namespace conv
+
+namespace conv {
+// recipe <conv-spec>: what prepare_recipe decided, as far as the written file shows it: FAIL (write_cif threw a
+// runtime_error: for a merged file only the specification can make it fail), or
+//   R <hex tag>,... A <hex label>:<hex tag>,...     (tags of the loop; "label -> tag" announcements, in order)
+inline std::string recipe_cmd(const std::string& args) {
+  Case c;
+  build(args, c);
+  std::ostringstream os;
+  try {
+    c.m2c.write_cif(c.mtz, nullptr, nullptr, os);
+  } catch (std::runtime_error&) {
+    return "FAIL";
+  }
+  std::string text = os.str();
+  auto ann = announced(text);
+  size_t lp = text.find("\nloop_\n_refln.");
+  if (lp == std::string::npos) return "no loop";
+  size_t p = lp + 7;
+  std::string out = "R ";
+  bool first = true;
+  while (text.compare(p, 7, "_refln.") == 0) {
+    size_t e = text.find('\n', p);
+    out += (first ? "" : ",") + hv::hex_encode(text.substr(p + 7, e - p - 7));
+    first = false;
+    p = e + 1;
+  }
+  out += " A ";
+  if (ann.empty()) out += "none";
+  first = true;
+  for (const auto& a : ann) {
+    out += (first ? "" : ",") + hv::hex_encode(a.first) + ":" + hv::hex_encode(a.second);
+    first = false;
+  }
+  return out;
+}
+}  // namespace conv
+
 inline bool conv_handle(const std::string& cmd, const std::string& args, std::string& r) {
+  if (cmd == "o_unm") { r = conv::o_unm(args); return true; }
   if (cmd == "o_conv") { r = conv::o_conv(args); return true; }
   if (cmd == "rows") { r = conv::rows_cmd(args); return true; }
+  if (cmd == "recipe") { r = conv::recipe_cmd(args); return true; }
   return false;
 }
